@@ -116,7 +116,9 @@ func withWeights(base map[string]int, over map[string]int) map[string]int {
 var ProfileC02 = &Profile{
 	MultiMsg: true,
 	ID:       "C02", Name: "shares", MinBlocks: 5, MaxBlocks: 40, MaxTxs: 5, Spec: specDefault, Check: CheckC02, PreBlock: govModules("amm", "leveragelp"),
-	Weights: withWeights(mixedWeights(), map[string]int{"amm.join": 14, "amm.exit": 14, "leveragelp.open": 10, "leveragelp.close": 8, "leveragelp.close_positions": 3, "perpetual.open": 2, "perpetual.close": 2}),
+	Weights: withWeights(mixedWeights(), map[string]int{"amm.join": 14, "amm.exit": 14, "leveragelp.open": 10, "leveragelp.close": 8, "leveragelp.close_positions": 3, "perpetual.open": 2, "perpetual.close": 2,
+		// the commitment module's own messages act on the same ledger entries (they must refuse pool shares)
+		"commitment.unstake": 4, "commitment.uncommit": 3, "commitment.stake": 1, "commitment.commit_claimed": 1}),
 	Rule:    "history with >=1 join and >=1 exit and >=1 leveragelp open or close (all successful)",
 	NonTrivial: func(h *History) bool {
 		return okCount(h, "amm.join") > 0 && okCount(h, "amm.exit") > 0 && okCount(h, "leveragelp.open", "leveragelp.close") > 0
